@@ -10,7 +10,9 @@ package tables
 //  * stream "gen": hostile inputs straight into the exported generators (WhereClause, ColumnList, SortList,
 //    PagingClauses, FullName, StripQuotes, SQLEscape, FormSelectorDeleteQuery, FormUpdateQuery,
 //    FormInsertQuery, formAbstract*); the text is compared with the Lean model (filters travel as the
-//    token lists the real tokenizer produced).
+//    token lists the real tokenizer produced).  The statement texts of the builders also go to c14_stmts.jsonl, so
+//    that the lexing policy of checks/C14.py is a direct oracle for the identifier positions (row keys, payload
+//    columns) whose hostile names the handlers refuse before a statement is built.
 //  * stream "req": requests through the real handlers (ReadRows, DeleteRows, UpdateRows, InsertRows, their
 //    abstract variants, scripting.Handler tasks) against a SQLite file that also holds a canary table.
 //    Direct oracles, none of which uses the model: the canary table and the schema never change; no response
@@ -264,8 +266,72 @@ var c14Nasty = []string{
 
 var c14Alphabet = []rune("abAZ019_ '\"\";,-/*().~\\=<>|%\n\tıſé世$?:@")
 
+// Names that already look like a delimited identifier: they begin AND end with a double quote, and what is between
+// the two is not a well-formed identifier body (a lone inner quote closes the "identifier" early, live SQL follows,
+// and a comment or another quoted name swallows the trailing quote).  A quoting helper that trusts the outer pair --
+// or strips / adds quotes by looking only at the two ends -- copies such a name into the statement as SQL text.
+// One list per identifier position, so that the live text is valid SQL at that position of the statement.
+var c14DelimShapes = map[string][]string{
+	"table": {
+		`"canary" --"`, `"canary" /*"`, `"canary";--"`, `"canary"`, `"t1"`, `"t1" WHERE 1=1 --"`, `"t1" WHERE 1=1 OR ""="`,
+		`"t1" NATURAL JOIN "canary"`, `"t1","canary"`, `"t1" SET "note"=(SELECT "secret" FROM "canary") --"`,
+		`"t1" AS "x"`, `"canary" AS "t1"`, `"t1";DELETE FROM "canary";--"`, `"t1" UNION SELECT "secret","n","n","n","n" FROM "canary" --"`,
+	},
+	"column": {
+		`"secret" FROM "canary" --"`, `"secret" AS "id" FROM "canary" --"`, `"id"||(SELECT "secret" FROM "canary") AS "id"`,
+		`"id" FROM "t1" --"`, `"id" FROM "t1" /*"`, `"id"`, `"na""me"`, `"id" AS "x"`, `"secret" AS "id" FROM "canary";--"`,
+		`"id" FROM "t1" UNION SELECT "secret" FROM "canary" --"`, `"id"+(SELECT max("n") FROM "canary") AS "id"`,
+	},
+	"sort": {
+		`"age"*(SELECT "n" FROM "canary") --"`, `"age"*(SELECT CASE WHEN "secret" LIKE 'C%' THEN 1 ELSE -1 END FROM "canary") --"`,
+		`"id" IN (SELECT "n" FROM "canary") COLLATE "binary"`, `"id";DELETE FROM "canary";--"`, `"id" LIMIT 0 --"`, `"id"`,
+		`"id" DESC --"`, `"id" COLLATE "nocase"`, `"id"+(SELECT count(*) FROM "canary") /*"`,
+	},
+	"key": {
+		`"note"=(SELECT "secret" FROM "canary") --"`, `"note"=(SELECT "secret" FROM "canary"),"name"`, `"note"=$1 WHERE 1=1 --"`,
+		`"note"`, `"note"=(SELECT "secret" FROM "canary" LIMIT 1),"note"`, `"note") SELECT "secret" FROM "canary" --"`,
+		`"note"=''||"name","name"`,
+	},
+}
+
+var c14DelimPositions = []string{"table", "column", "sort", "key"}
+
+// c14Delimited returns a name that begins and ends with a double quote around live SQL text for the position.
+func c14Delimited(r *rand.Rand, pos string) string {
+	shapes, ok := c14DelimShapes[pos]
+	if !ok {
+		pos = c14DelimPositions[r.Intn(len(c14DelimPositions))]
+		shapes = c14DelimShapes[pos]
+	}
+
+	switch r.Intn(4) {
+	case 0: // composed: a quoted head, live text, a tail that ends in a quote
+		head := []string{`"id"`, `"name"`, `"note"`, `"t1"`, `"canary"`, `"secret"`, `""`, `"x"`}[r.Intn(8)]
+		live := []string{"", " ", ";", " FROM \"canary\"", " OR 1=1", "=\"secret\"", "||\"secret\"", " WHERE 1=1", ")", "(", "*1", " IS NULL",
+			" FROM canary", ";DROP TABLE canary", " UNION SELECT * FROM canary", " , ", "'"}[r.Intn(17)]
+		tail := []string{` --"`, `--"`, ` /*"`, `;--"`, `"`, ` ""`, ` "x"`, ` AS "x"`, ` -- "`, "\n\""}[r.Intn(10)]
+
+		return head + live + tail
+	case 1: // an outer pair around arbitrary nasty text
+		return `"` + c14Nasty[r.Intn(len(c14Nasty))] + c14Nasty[r.Intn(len(c14Nasty))] + `"`
+	}
+
+	return shapes[r.Intn(len(shapes))]
+}
+
+// c14Wrapped adds the outer pair of quotes that StripQuotes / FullName take off a table name again.
+func c14Wrapped(r *rand.Rand, s string) string {
+	if r.Intn(3) == 0 {
+		return s
+	}
+
+	return `"` + s + `"`
+}
+
 func c14Hostile(r *rand.Rand) string {
-	switch r.Intn(6) {
+	switch r.Intn(7) {
+	case 3:
+		return c14Delimited(r, "")
 	case 0:
 		return c14Nasty[r.Intn(len(c14Nasty))]
 	case 1:
@@ -855,16 +921,24 @@ func (e *c14Env) run(rq *c14Req) {
 		e.stats.Inc("status_rejected")
 	}
 
-	// O1: the canary table and the schema never change
-	if got := e.dump(`SELECT * FROM canary ORDER BY n`); got != e.canary {
-		e.fail("canary-modified", "a table REST request changed a table it did not address", input, got, e.canary)
-		e.exec(`DELETE FROM canary`)
-		e.seedCanary()
-	}
+	// O1: the canary table and the schema never change (no generated request addresses an existing table with a
+	// schema-changing operation: the only one, the "drop" task, is given names that are not a table)
+	schemaChanged := false
 
 	if got := e.dump(`SELECT type,name,tbl_name,sql FROM sqlite_master ORDER BY name`); got != e.schema {
 		e.fail("schema-modified", "a table REST request changed the database schema", input, got, e.schema)
-		e.t.Fatalf("schema changed by %s", input)
+		e.restoreSchema(input)
+
+		schemaChanged = true
+	}
+
+	if got := e.dump(`SELECT * FROM canary ORDER BY n`); got != e.canary {
+		if !schemaChanged {
+			e.fail("canary-modified", "a table REST request changed a table it did not address", input, got, e.canary)
+		}
+
+		e.exec(`DELETE FROM canary`)
+		e.seedCanary()
 	}
 
 	// O2: no canary data in any response
@@ -891,6 +965,12 @@ func (e *c14Env) run(rq *c14Req) {
 
 		if rq.Kind == "tx" {
 			table = ""
+
+			for _, op := range rq.Ops {
+				if op.Opcode == "drop" {
+					bare = append(bare, "DROP", "TABLE") // the fixed words of the drop task's statement
+				}
+			}
 		}
 
 		names, ok := e.touched(q)
@@ -901,6 +981,12 @@ func (e *c14Env) run(rq *c14Req) {
 					allowed = false
 
 					for _, op := range rq.Ops {
+						if op.Opcode == "drop" {
+							allowed = allowed || n == op.Table // the drop task takes the name as it is
+
+							continue
+						}
+
 						if n == c14StripName(op.Table) {
 							allowed = true
 						}
@@ -918,6 +1004,10 @@ func (e *c14Env) run(rq *c14Req) {
 		e.stmts.Write(c14Stmt{Req: input, SQL: q, Table: table, Bare: bare, Touched: names})
 	}
 
+	if schemaChanged {
+		return // the tables were rebuilt: the harness's copy of t1 no longer describes the database
+	}
+
 	e.meaning(rq, status, body, input)
 	e.insertOracle(rq, status)
 	e.correspond(rq, log)
@@ -930,6 +1020,46 @@ func (e *c14Env) run(rq *c14Req) {
 		if len(log) > 2 {
 			e.stats.Sample(map[string]any{"request": rq, "status": status, "sql": log[len(log)-1]})
 		}
+	}
+}
+
+const (
+	c14CreateT1     = `CREATE TABLE t1 (id INTEGER, name TEXT, age INTEGER, note TEXT, _row_id_ TEXT)`
+	c14CreateCanary = `CREATE TABLE canary (secret TEXT, n INTEGER)`
+)
+
+// restoreSchema rebuilds the two tables after a request changed the schema, so that the run can go on and report
+// further failing inputs; it gives up when the schema cannot be put back.
+func (e *c14Env) restoreSchema(input string) {
+	rows, err := e.h.Query(`SELECT type, name FROM sqlite_master WHERE name NOT LIKE 'sqlite_%'`)
+	if err != nil {
+		e.t.Fatalf("schema changed by %s; reading it: %v", input, err)
+	}
+
+	drops := []string{}
+
+	for rows.Next() {
+		var typ, name string
+
+		if err := rows.Scan(&typ, &name); err != nil {
+			e.t.Fatalf("schema changed by %s; reading it: %v", input, err)
+		}
+
+		drops = append(drops, "DROP "+strings.ToUpper(typ)+" IF EXISTS "+`"`+strings.ReplaceAll(name, `"`, `""`)+`"`)
+	}
+
+	rows.Close()
+
+	for _, q := range drops {
+		_, _ = e.h.Exec(q) // an index or trigger goes with its table: a second drop may find nothing
+	}
+
+	e.exec(c14CreateT1)
+	e.exec(c14CreateCanary)
+	e.seedCanary()
+
+	if got := e.dump(`SELECT type,name,tbl_name,sql FROM sqlite_master ORDER BY name`); got != e.schema {
+		e.t.Fatalf("schema changed by %s and could not be restored: %s", input, got)
 	}
 }
 
@@ -1520,8 +1650,31 @@ func (e *c14Env) genStream(r *rand.Rand, n int) {
 		}
 
 		if okf && c14Valid(table, cols) && c14Valid(q["sort"]...) {
+			// the statement builders' texts also go through the statement lexing policy (checks/C14.py: one statement,
+			// no comment, no word outside the literals but the generators' vocabulary and the plain sort names):
+			// the oracle for the positions whose hostile names the handlers refuse before they build a statement
+			bare := []string{}
+
+			for _, v := range q["sort"] {
+				for _, p := range strings.Split(strings.TrimPrefix(v, "~"), ",") {
+					bare = append(bare, strings.TrimSpace(p))
+				}
+			}
+
+			lex := func(builder string, keys []string, text string, err error) {
+				// a text with the syntax-error marker is never executed (every caller refuses it)
+				if err != nil || strings.Contains(text, parsing.SyntaxErrorPrefix) {
+					return
+				}
+
+				in, _ := json.Marshal(map[string]any{"builder": builder, "table": table, "columns": cols, "query": q, "keys": keys})
+				e.stats.Inc("gen_statements")
+				e.stmts.Write(c14Stmt{Req: string(in), SQL: text, Table: table, Bare: bare})
+			}
+
 			verb := []string{"SELECT", "DELETE"}[r.Intn(2)]
 			s, err := parsing.FormSelectorDeleteQuery(u, filters, cols, table, "admin", verb, defs.SqliteProvider)
+			lex("FormSelectorDeleteQuery "+verb, nil, s, err)
 			e.corr(fmt.Sprintf("seldel %s %s %s %s %s %s %s", verb[:1], verifh.Hex(table), verifh.Hex(cols), fl, c14List(hasSort, q["sort"]),
 				c14Int(hasLimit, q["limit"]), c14Start(hasStart, q["start"])), c14OkText(s, err), "FormSelectorDeleteQuery")
 
@@ -1532,6 +1685,10 @@ func (e *c14Env) genStream(r *rand.Rand, n int) {
 
 			for j := 0; j < nk; j++ {
 				k := c14Hostile(r)
+				if r.Intn(4) == 0 {
+					k = c14Delimited(r, "key")
+				}
+
 				if !c14Valid(k) {
 					continue
 				}
@@ -1562,6 +1719,7 @@ func (e *c14Env) genStream(r *rand.Rand, n int) {
 
 			if !strings.ContainsAny(table, "/?#%") && table != "" {
 				s, _, err := parsing.FormUpdateQuery(u, "admin", defs.SqliteProvider, columns, items)
+				lex("FormUpdateQuery", keys, s, err)
 				e.corr(fmt.Sprintf("update %s %s %s %s 0", verifh.Hex(table), c14List(true, keys), fl, rowid), c14OkText(s, err), "FormUpdateQuery")
 			}
 
@@ -1572,6 +1730,8 @@ func (e *c14Env) genStream(r *rand.Rand, n int) {
 			}
 
 			s, _, err = parsing.FormInsertQuery(table, "admin", defs.SqliteProvider, columns, items)
+			lex("FormInsertQuery", all, s, err)
+
 			if err == nil {
 				e.corr(fmt.Sprintf("insert %s %s", verifh.Hex(table), c14List(true, all)), verifh.Hex(s), "FormInsertQuery")
 			}
@@ -1584,6 +1744,7 @@ func (e *c14Env) genStream(r *rand.Rand, n int) {
 			}
 
 			s, _ = formAbstractInsertQuery(full, all, vals)
+			lex("formAbstractInsertQuery", all, s, nil)
 			e.corr(fmt.Sprintf("absins %s %s %d", verifh.Hex(table), c14List(true, all), len(vals)), verifh.Hex(s), "formAbstractInsertQuery")
 
 			hasRow := "0"
@@ -1595,6 +1756,7 @@ func (e *c14Env) genStream(r *rand.Rand, n int) {
 			}
 
 			s, _, err = formAbstractUpdateQuery(u, full, all, vals)
+			lex("formAbstractUpdateQuery", all, s, err)
 			e.corr(fmt.Sprintf("absupd %s %s %s %s", verifh.Hex(table), c14List(true, all), fl, hasRow), c14OkText(s, err), "formAbstractUpdateQuery")
 		}
 	}
@@ -1661,6 +1823,8 @@ func c14TableName(r *rand.Rand) string {
 		return c14Hostile(r)
 	case 1:
 		return "\"t1\""
+	case 3:
+		return c14Wrapped(r, c14Delimited(r, "table"))
 	case 2:
 		return []string{"t1 union select * from canary --", "canary --", "t1\"", "\"t1", "t1;", "t1'", "t1 --", "main.t1", "a.b.c", "\"a\".\"b\"", "t1\" WHERE 1=1 --"}[r.Intn(11)]
 	}
@@ -1673,9 +1837,11 @@ func c14Columns(r *rand.Rand) string {
 	parts := make([]string, n)
 
 	for i := range parts {
-		switch r.Intn(4) {
+		switch r.Intn(5) {
 		case 0:
 			parts[i] = c14Hostile(r)
+		case 2:
+			parts[i] = c14Delimited(r, "column")
 		case 1:
 			parts[i] = []string{"count(*)", "count(*) as count", " count(*) ", "count(*) from canary --", "COUNT(*)", "count(*) as c", "count(secret) from canary", ""}[r.Intn(8)]
 		default:
@@ -1691,9 +1857,11 @@ func c14Sort(r *rand.Rand) []string {
 	v := make([]string, n)
 
 	for i := range v {
-		switch r.Intn(4) {
+		switch r.Intn(5) {
 		case 0:
 			v[i] = c14Hostile(r)
+		case 2:
+			v[i] = []string{"", "~", "id,", " "}[r.Intn(4)] + c14Delimited(r, "sort")
 		case 1:
 			v[i] = []string{"name,(select secret from canary)", "(select 1);delete from canary;--", "~name", "id, age", "~", "", " ", "a,,b", "1", "name desc", "na me", "_x9", "9x"}[r.Intn(13)]
 		default:
@@ -1775,9 +1943,25 @@ func (e *c14Env) genRequest(r *rand.Rand) *c14Req {
 		}
 	}
 
+	if rq.hostile && rq.Table == "t1" && r.Intn(8) == 0 {
+		if t := c14Wrapped(r, c14Delimited(r, "table")); !strings.ContainsAny(t, "/?#%") && utf8.ValidString(t) {
+			rq.Table = t
+			rq.expr = nil
+		}
+	}
+
 	note := c14Hostile(r)
 	if !utf8.ValidString(note) {
 		note = "x"
+	}
+
+	// a hostile name for a JSON row key / payload column
+	hostileKey := func() string {
+		if r.Intn(2) == 0 {
+			return c14Delimited(r, "key")
+		}
+
+		return strings.ToValidUTF8(c14Hostile(r), "?")
 	}
 
 	switch rq.Kind {
@@ -1827,7 +2011,7 @@ func (e *c14Env) genRequest(r *rand.Rand) *c14Req {
 		rq.Body = string(b)
 
 		if rq.hostile && r.Intn(4) == 0 {
-			b, _ := json.Marshal(map[string]any{c14Hostile(r): note})
+			b, _ := json.Marshal(map[string]any{hostileKey(): note})
 			rq.Body = strings.ToValidUTF8(string(b), "?")
 		}
 	case "patchabs":
@@ -1835,7 +2019,7 @@ func (e *c14Env) genRequest(r *rand.Rand) *c14Req {
 		col := "note"
 
 		if rq.hostile && r.Intn(4) == 0 {
-			col = strings.ToValidUTF8(c14Hostile(r), "?")
+			col = hostileKey()
 		}
 
 		b, _ := json.Marshal(map[string]any{"columns": []map[string]any{{"name": col}}, "rows": [][]any{{note}}})
@@ -1845,7 +2029,7 @@ func (e *c14Env) genRequest(r *rand.Rand) *c14Req {
 		rq.expr = nil
 		row := map[string]any{"id": 100 + r.Intn(100), "name": strings.ToValidUTF8(c14Hostile(r), "?"), "age": r.Intn(90), "note": note}
 
-		if k := strings.ToValidUTF8(c14Hostile(r), "?"); r.Intn(5) == 0 {
+		if k := hostileKey(); r.Intn(5) == 0 {
 			if _, standard := row[k]; !standard && k != defs.RowIDName {
 				row[k] = "x"
 			}
@@ -1861,11 +2045,29 @@ func (e *c14Env) genRequest(r *rand.Rand) *c14Req {
 		rq.Body = string(b)
 	case "tx":
 		op := defs.TXOperation{Table: rq.Table, Filters: filters}
-		op.Opcode = []string{"select", "readrows", "delete", "update", "insert"}[r.Intn(5)]
+		op.Opcode = []string{"select", "readrows", "delete", "update", "insert", "select", "readrows", "delete", "update", "insert", "drop"}[r.Intn(11)]
 
 		switch op.Opcode {
+		case "drop":
+			// only names that are not a table of the database when taken as ONE identifier: nothing may be dropped
+			op.Filters = nil
+			op.Table = c14Delimited(r, "table")
+
+			if r.Intn(3) == 0 {
+				op.Table = strings.ToValidUTF8(c14Hostile(r), "?")
+			}
+
+			if op.Table == "t1" || op.Table == "canary" || op.Table == "" {
+				op.Table = `"t1"`
+			}
+
+			rq.hostile, rq.expr = true, nil
 		case "update":
 			op.Data = map[string]any{"note": note}
+
+			if rq.hostile && r.Intn(4) == 0 {
+				op.Data = map[string]any{hostileKey(): note}
+			}
 		case "insert":
 			op.Filters = nil
 			op.Data = map[string]any{"id": 100 + r.Intn(100), "name": strings.ToValidUTF8(c14Hostile(r), "?"), "age": r.Intn(90), "note": note}
@@ -1887,7 +2089,68 @@ func (e *c14Env) genRequest(r *rand.Rand) *c14Req {
 		rq.Ops = []defs.TXOperation{op}
 	}
 
+	if rq.hostile && r.Intn(4) == 0 {
+		c14PlantDelimited(r, rq)
+	}
+
 	return rq
+}
+
+// c14PlantDelimited turns a hostile request into one whose only hostile part is an already-delimited name in ONE
+// identifier position the request kind has; the filter is the guard alone, so that the request is not refused for
+// its filter before the name reaches a statement.
+func c14PlantDelimited(r *rand.Rand, rq *c14Req) {
+	const guard = "EQ(id,-424242)"
+
+	table := func() string {
+		for {
+			if t := c14Wrapped(r, c14Delimited(r, "table")); !strings.ContainsAny(t, "/?#%") && utf8.ValidString(t) {
+				return t
+			}
+		}
+	}
+
+	key := func() string { return strings.ToValidUTF8(c14Delimited(r, "key"), "?") }
+	rq.expr, rq.sortIDs = nil, false
+
+	if rq.Kind == "tx" {
+		op := &rq.Ops[0]
+
+		if len(op.Filters) > 0 {
+			op.Filters = []string{guard}
+		}
+
+		switch pos := r.Intn(3); {
+		case op.Opcode == "drop":
+		case pos == 0 && (op.Opcode == "select" || op.Opcode == "readrows"):
+			op.Columns = []string{strings.ToValidUTF8(c14Delimited(r, "column"), "?")}
+		case pos == 0 && (op.Opcode == "update" || op.Opcode == "insert"):
+			op.Data[key()] = "pwn"
+		default:
+			op.Table = table()
+		}
+
+		return
+	}
+
+	if _, ok := rq.Query["filter"]; ok {
+		rq.Query["filter"] = []string{guard}
+	}
+
+	switch pos := r.Intn(3); {
+	case pos == 0 && (rq.Kind == "get" || rq.Kind == "getabs"):
+		rq.Query["columns"] = []string{strings.ToValidUTF8(c14Delimited(r, "column"), "?")}
+	case pos == 1 && (rq.Kind == "get" || rq.Kind == "getabs"):
+		rq.Query["sort"] = []string{[]string{"", "~"}[r.Intn(2)] + strings.ToValidUTF8(c14Delimited(r, "sort"), "?")}
+	case pos == 0 && rq.Kind == "patch":
+		b, _ := json.Marshal(map[string]any{key(): "pwn"})
+		rq.Body = string(b)
+	case pos == 0 && rq.Kind == "patchabs":
+		b, _ := json.Marshal(map[string]any{"columns": []map[string]any{{"name": key()}}, "rows": [][]any{{"pwn"}}})
+		rq.Body = string(b)
+	default:
+		rq.Table = table()
+	}
 }
 
 // insertOracle: hostile row values are stored verbatim
@@ -1957,8 +2220,8 @@ func TestVerifC14(t *testing.T) {
 	defer e.fails.Close()
 	defer e.stmts.Close()
 
-	e.exec(`CREATE TABLE t1 (id INTEGER, name TEXT, age INTEGER, note TEXT, _row_id_ TEXT)`)
-	e.exec(`CREATE TABLE canary (secret TEXT, n INTEGER)`)
+	e.exec(c14CreateT1)
+	e.exec(c14CreateCanary)
 	e.seedCanary()
 	e.canary = e.dump(`SELECT * FROM canary ORDER BY n`)
 	e.schema = e.dump(`SELECT type,name,tbl_name,sql FROM sqlite_master ORDER BY name`)
@@ -2007,6 +2270,57 @@ func TestVerifC14(t *testing.T) {
 		{Kind: "tx", Table: "t1", hostile: true, Ops: []defs.TXOperation{{Opcode: "update", Table: "t1 set note=(select secret from canary) --", Filters: []string{guard}, Data: map[string]any{"note": "z"}}}},
 		{Kind: "tx", Table: "t1", hostile: true, Ops: []defs.TXOperation{{Opcode: "delete", Table: "t1", Filters: []string{guard, `EQ(id,-"1 OR 1=1")`}}}},
 		{Kind: "tx", Table: "t1", hostile: true, Ops: []defs.TXOperation{{Opcode: "update", Table: "t1", Filters: []string{guard, `EQ(id,-"1 OR 1=1")`}, Data: map[string]any{"note": "z"}}}},
+	}
+
+	// names that already look delimited (begin and end with a double quote around live SQL), one per identifier
+	// position and handler; a table name travels with the extra outer pair that FullName takes off again
+	tx := func(op defs.TXOperation) *c14Req {
+		return &c14Req{Kind: "tx", Table: "t1", hostile: true, Ops: []defs.TXOperation{op}}
+	}
+
+	for _, table := range []string{`""canary" --""`, `""canary""`, `""t1" WHERE 1=1 --""`, `""t1","canary""`, `"canary" --"`, `""t1""`} {
+		for _, kind := range []string{"get", "getabs", "delete"} {
+			corpus = append(corpus, &c14Req{Kind: kind, Table: table, Query: map[string][]string{"filter": {guard}}, hostile: true})
+		}
+
+		corpus = append(corpus,
+			&c14Req{Kind: "patch", Table: table, Query: map[string][]string{"filter": {guard}}, Body: `{"note":"pwn"}`, hostile: true},
+			&c14Req{Kind: "put", Table: table, Query: map[string][]string{}, Body: `{"id":100,"name":"n","age":1,"note":"pwn"}`, hostile: true},
+			tx(defs.TXOperation{Opcode: "select", Table: table, Filters: []string{guard}}),
+			tx(defs.TXOperation{Opcode: "readrows", Table: table, Filters: []string{guard}}),
+			tx(defs.TXOperation{Opcode: "delete", Table: table, Filters: []string{guard}}),
+			tx(defs.TXOperation{Opcode: "update", Table: table, Filters: []string{guard}, Data: map[string]any{"note": "z"}}),
+			tx(defs.TXOperation{Opcode: "insert", Table: table, Data: map[string]any{"id": 100, "name": "n", "age": 1, "note": "pwn"}}),
+			tx(defs.TXOperation{Opcode: "drop", Table: table}),
+		)
+	}
+
+	for _, cols := range []string{`"secret" FROM "canary" --"`, `"id"||(SELECT "secret" FROM "canary") AS "id"`, `"id" FROM "t1" --"`, `id,"secret" AS "name" FROM "canary" --"`} {
+		corpus = append(corpus,
+			abs("get", map[string][]string{"columns": {cols}, "filter": {guard}}, ""),
+			abs("getabs", map[string][]string{"columns": {cols}, "filter": {guard}}, ""),
+			tx(defs.TXOperation{Opcode: "select", Table: "t1", Filters: []string{guard}, Columns: strings.Split(cols, ",")}),
+			tx(defs.TXOperation{Opcode: "readrows", Table: "t1", Filters: []string{guard}, Columns: strings.Split(cols, ",")}),
+		)
+	}
+
+	for _, srt := range []string{`"age"*(SELECT CASE WHEN "secret" LIKE 'C%' THEN 1 ELSE -1 END FROM "canary") --"`,
+		`"id" IN (SELECT "n" FROM "canary") COLLATE "binary"`, `~"id";DELETE FROM "canary";--"`, `id,"id" LIMIT 0 --"`} {
+		corpus = append(corpus,
+			abs("get", map[string][]string{"sort": {srt}}, ""),
+			abs("getabs", map[string][]string{"sort": {srt}, "filter": {guard}}, ""),
+		)
+	}
+
+	for _, key := range []string{`"note"=(SELECT "secret" FROM "canary") --"`, `"note"=(SELECT "secret" FROM "canary"),"name"`, `"note"=$1 WHERE 1=1 --"`} {
+		kb, _ := json.Marshal(key)
+		corpus = append(corpus,
+			abs("patch", map[string][]string{"filter": {guard}}, `{`+string(kb)+`:"pwn"}`),
+			abs("patchabs", map[string][]string{"filter": {guard}}, `{"columns":[{"name":`+string(kb)+`}],"rows":[["pwn"]]}`),
+			abs("put", map[string][]string{}, `{"id":100,"name":"n","age":1,"note":"x",`+string(kb)+`:"pwn"}`),
+			tx(defs.TXOperation{Opcode: "update", Table: "t1", Filters: []string{guard}, Data: map[string]any{key: "pwn"}}),
+			tx(defs.TXOperation{Opcode: "insert", Table: "t1", Data: map[string]any{"id": 100, "name": "n", "age": 1, "note": "x", key: "pwn"}}),
+		)
 	}
 
 	for _, rq := range corpus {
